@@ -68,7 +68,7 @@ Lemma rd_shape_z_nat s : rd_shape_z D (pstream s) = option_map pq (rd_shape_z T 
 Proof.
   unfold rd_shape_z. rewrite readline_nat. cbn [fst snd]. rewrite readline_nat. cbn [fst snd].
   rewrite head_int_nat, all_ints_nat. destruct (head_int T _); [|reflexivity]. cbn [bindo].
-  destruct (all_ints T _) as [zs|]; [|reflexivity]. cbn [bindo]. destruct (_ || _); reflexivity.
+  destruct (all_ints T _) as [zs|]; [|reflexivity]. cbn [bindo]. destruct (negb _); reflexivity.
 Qed.
 Lemma rd_shape_l_nat s : rd_shape_l D (pstream s) = option_map pq (rd_shape_l T s).
 Proof.
@@ -118,7 +118,8 @@ Proof.
   destruct (String.eqb w "ktensor"); [|reflexivity].
   rewrite rd_shape_z_nat. destruct (rd_shape_z T _) as [[sh r]|]; [|reflexivity]. cbn [option_map bindo pq fst snd].
   rewrite readline_nat. cbn [fst snd]. rewrite head_int_nat. destruct (head_int T _); [|reflexivity]. cbn [bindo].
-  destruct (nat_of z) as [r0|]; [|reflexivity]. cbn [bindo]. rewrite rd_weights_nat. unfold pq. cbn [fst snd].
+  destruct (nat_of z) as [r0|]; [|reflexivity]. cbn [bindo]. destruct (Nat.eqb (length sh) 0); [reflexivity|].
+  rewrite rd_weights_nat. unfold pq. cbn [fst snd].
   destruct (Nat.eqb r0 0); [rewrite readline_nat; cbn [snd]|]; now rewrite rd_factors_l_nat.
 Qed.
 Corollary import_lines_nat b f : import_lines D D d0 idD ofZ b (plines f) = import_lines D T d0 parse ofZ b f.
@@ -160,7 +161,7 @@ Proof. revert l'; induction l as [|a l IH]; intros [|b l']; cbn; auto. now rewri
 Lemma wf_map_obj o : wf_obj D o -> wf_obj D (map_obj rnd o).
 Proof.
   destruct o as [X|Sp|K|m n A|s c]; cbn [wf_obj map_obj].
-  - unfold wf_dense. cbn. now rewrite map_length.
+  - unfold wf_tensor. cbn. now rewrite map_length.
   - cbn. now rewrite map_length.
   - unfold krank. cbn [kweights kfactors]. rewrite map_length. intros H. rewrite Forall_forall in *. intros B HB.
     apply in_map_iff in HB as (B0 & <- & HB0). specialize (H B0 HB0). rewrite Forall_forall in *. intros r Hr.
@@ -177,9 +178,9 @@ Theorem export_lines_nat b o : wf_obj D o ->
 Proof.
   destruct o as [X|Sp|K|m n A|s c]; intros W; unfold export_lines; cbn [map_obj];
     rewrite ?plines_cons, ?plines_app, ?plines_cons; cbn [map C16Fmt.ptok].
-  - cbn [wf_obj] in W. rewrite (ravelC_transpose D d0 X W).
-    assert (W' : wf_dense (mkDense (dshape X) (map rnd (ddata X)))) by (unfold wf_dense in *; cbn; now rewrite map_length).
-    rewrite (ravelC_transpose D d0 _ W'). cbn [dshape ddata]. now rewrite size_lines_nat, one_per_line_nat.
+  - cbn [wf_obj] in W. rewrite (tensor_vals_data D d0 X W).
+    assert (W' : wf_tensor D (mkDense (dshape X) (map rnd (ddata X)))) by (unfold wf_tensor in *; cbn; now rewrite map_length).
+    rewrite (tensor_vals_data D d0 _ W'). cbn [dshape ddata]. now rewrite size_lines_nat, one_per_line_nat.
   - cbn [sshape ssubs svals]. rewrite size_lines_nat. cbn [map C16Fmt.ptok zn]. do 3 f_equal.
     unfold entries, C16Fmt.plines. cbn [ssubs svals]. rewrite combine_map_r, !map_map. apply map_ext. intros [i v].
     unfold entry_line, num. cbn [fst snd]. rewrite map_app, map_map. reflexivity.
@@ -198,7 +199,7 @@ Qed.
 Lemma wf_lines_map_obj o : wf_lines D o -> wf_lines D (map_obj rnd o).
 Proof.
   destruct o as [X|Sp|K|m n A|s c]; cbn [wf_lines map_obj]; auto.
-  cbn [kfactors]. intros H1. destruct (kfactors K); [congruence|discriminate].
+  cbn [kfactors kweights]. intros H1 H2. destruct (kfactors K); [|discriminate]. now rewrite (H1 eq_refl).
 Qed.
 
 (* ANY format: import (export_fmt o) = o with every value replaced by parse (print v) *)
